@@ -9,7 +9,8 @@ continuous-time acceleration that the forward dynamics computed before the integ
 
   Euler (with `eulerdamp`):   qfrc = (M + h·diag(B)) · qacc,         qacc ← M⁻¹ qfrc      (B = d(damping force)/dv)
   implicit / implicitfast:    qfrc = (M − h·∂f/∂v) · qacc,           qacc ← M⁻¹ qfrc
-  Euler without dof damping or with `mjDSBL_EULERDAMP`: nothing to do.
+  Euler without dof damping, or with `mjDSBL_EULERDAMP` or `mjDSBL_DAMPER` set: nothing to do
+  (the same branch condition as `mj_EulerSkip`; since fix 12e0c5659 both test EULERDAMP and DAMPER).
 
 The model is dense: `Mhat` is the matrix the code multiplies with (`M + h·diag(B)` resp. `M − h·qDeriv`,
 densified by the harness from the engine's own arrays) and the solve with `M` is the checker's dense Cholesky
@@ -25,6 +26,17 @@ variable {α : Type} [MjNum α]
 def discreteAcc (M Mhat : List (List α)) (qaccDiscrete : List α) : Option (List α) := do
   let L ← chol M
   cholSolve L (matVec Mhat qaccDiscrete)
+
+/-- branch condition of the Euler case, shared by `mj_EulerSkip` (forward) and `mj_discreteAcc` (inverse):
+    `!mjDISABLED(mjDSBL_EULERDAMP) && !mjDISABLED(mjDSBL_DAMPER)` and some dof has damping (`dof_damping > 0`, a
+    non-zero damping polynomial, or an actuator attached to its joint) -/
+def eulerDampActive (disEulerDamp disDamper anyDamping : Bool) : Bool := !disEulerDamp && !disDamper && anyDamping
+
+/-- the Euler case of `mj_discreteAcc`: the correction with `Mhat = M + h·diag(B)` when the branch is active,
+    otherwise `qacc` is left untouched -/
+def discreteAccEuler (disEulerDamp disDamper anyDamping : Bool) (M Mhat : List (List α)) (qaccDiscrete : List α) :
+    Option (List α) :=
+  if eulerDampActive disEulerDamp disDamper anyDamping then discreteAcc M Mhat qaccDiscrete else some qaccDiscrete
 
 /-- the discrete acceleration the integrator produces from the continuous one: `Mhat a_d = M a_c` -/
 def forwardDiscrete (M Mhat : List (List α)) (qaccContinuous : List α) : Option (List α) := do
